@@ -157,7 +157,7 @@ pub fn run(ctx: &mut Ctx) {
             check_one(ctx, &Tree::Num(Num::f(f)));
         }
     }
-    let n = ctx.budget(150_000, 4_000_000);
+    let n = ctx.budget(1_000_000, 20_000_000);
     for i in 0..n {
         if !ctx.next_case() {
             return;
